@@ -29,7 +29,7 @@ VARIABLES l, m, cur, viol
 vars == << l, m, cur, viol >>
 
 NoLim == [ibs |-> 0, mb_rows |-> 0, mb_bytes |-> 0, mrg_rows |-> 0, mrg_bytes |-> 0,
-          mb_time_ms |-> 0, timed |-> 0, seqmode |-> 0]
+          mb_time_ms |-> 0, timed |-> 0, seqmode |-> 0, fs |-> 0]
 
 Fresh(t) ==
   [ tid |-> t, lim |-> NoLim,
@@ -43,7 +43,7 @@ Fresh(t) ==
     fresh |-> {}, obsClosed |-> TRUE, answeredAtStopRet |-> {},
     quietAfterDeadline |-> FALSE, unansweredAtQuiet |-> 0, settled |-> FALSE,
     stopLatency |-> 0, ackLat |-> [b \in B |-> 0], canceled |-> {},
-    pendShape |-> <<>>, limitMiss |-> FALSE, closed |-> FALSE ]
+    pendShape |-> <<>>, limitMiss |-> FALSE, closed |-> FALSE, removalRefused |-> FALSE ]
 
 Init == l = 1 /\ m = Fresh(0) /\ cur = [ev |-> "init", b |-> 0, seq |-> 0] /\ viol = {}
 
@@ -127,6 +127,8 @@ Apply(s, e) ==
             \* a CreateFile started by a flush that was dequeued after Stop returned its deadline error
             !.lateCreates = IF e.name = "store.create" /\ s.stopSt = "ret_deadline"
                                /\ s.lastFlusherRecv > s.stopRetSeq THEN @ + 1 ELSE @]
+    \* the store refused to remove a file (TombstoneFile / Abort returned an error)
+    [] e.ev = "storeend" /\ e.name \in {"tombstone", "abort"} /\ e.res = "err" -> [s EXCEPT !.removalRefused = TRUE]
     [] e.ev = "settle" -> [s EXCEPT !.settled = (e.a = 1), !.closed = TRUE]
     [] OTHER -> s
 
@@ -150,7 +152,11 @@ P_NoSilentDrop(s, c) ==
 P_AckNilDurable(s, c) ==
   \A b \in B : (Rowsy(s, b) /\ Answered(s, b) /\ s.answers[b][1] = "nil") =>
       (s.visS[b] \in {-1, 1} /\ s.visF[b] \in {-1, 1})
+\* (C06 makes this claim "with a MetaStore whose Update is atomic". With the directory itself as MetaStore a file is listed
+\* from its Close on, whatever Update returns; the engine then removes it - unless the store refuses the removal too, which
+\* no engine can make up for: such histories are outside the claim)
 P_AckErrAbsent(s, c) ==
+  (s.lim.fs = 1 /\ s.removalRefused) \/
   \A b \in B : (s.kind[b] \in {"rows", "bad"} /\ Answered(s, b) /\ s.answers[b][1] = "err") =>
       (s.visS[b] \in {-1, 0} /\ s.visF[b] \in {-1, 0})
 P_NeverTwiceVisible(s, c) == \A b \in B : s.visS[b] \in {-1, 0, 1} /\ s.visF[b] \in {-1, 0, 1}
